@@ -73,6 +73,9 @@ pub struct Synth {
 	pub producers: Vec<Vec<EvSpec>>,
 	pub threads: usize,
 	pub err: ErrBehaviour,
+	/// the error handler keeps the hooks of the errors it does not elevate alive until the end of the run (moved out of
+	/// the handler): a later elevation through a fresh hook must still end the main task
+	pub retain_hooks: bool,
 	pub filter_delay_us: u64,
 	/// after the producers finished: stream rejected (or erroring) events until every expected event was delivered
 	pub starve_with: Option<Verdict>,
@@ -197,6 +200,8 @@ struct Shared {
 	handler_version: AtomicU64,
 	replace_started: AtomicU64,
 	replace_done: AtomicU64,
+	retained: Mutex<Vec<ErrorHook>>,
+	retain: bool,
 }
 
 pub fn run(s: &Synth) -> History {
@@ -231,7 +236,11 @@ fn install_error_handler(config: &Arc<Config>, shared: &Arc<Shared>, behaviour: 
 				sh.replace_done.store(mono_ns(), Ordering::SeqCst);
 			}
 			ErrBehaviour::Slow(ms) => std::thread::sleep(Duration::from_millis(*ms)),
-			_ => {}
+			_ => {
+				if sh.retain {
+					sh.retained.lock().unwrap().push(hook);
+				}
+			}
 		}
 	});
 }
@@ -245,6 +254,8 @@ async fn drive(s: &Synth) -> History {
 		handler_version: AtomicU64::new(0),
 		replace_started: AtomicU64::new(0),
 		replace_done: AtomicU64::new(0),
+		retained: Mutex::new(vec![]),
+		retain: s.retain_hooks,
 	});
 	let filter_calls = Arc::new(Mutex::new(vec![]));
 	let mut config = Config::default();
@@ -550,6 +561,7 @@ pub fn gen_synth(rng: &mut Rng, with_errors: bool, small: bool) -> Synth {
 		producers: (0..nprod).map(|_| gen_events(rng, per, throttle_ms, with_errors)).collect::<Vec<_>>(),
 		threads: 2 + rng.usize(7),
 		err: ErrBehaviour::Ignore,
+		retain_hooks: false,
 		filter_delay_us: if rng.chance(1, 8) { 200 } else { 0 },
 		starve_with: None,
 		flood_producers: 1,
